@@ -691,7 +691,11 @@ func (vm *VirtualMachine) eval(ctx context.Context) error {
 			if _, ok := iter.Next(ctx); !ok {
 				vm.ip = base + int(jumpAmount)
 			} else {
-				obj, _ := iter.Entry()
+				obj, ok := iter.Entry()
+				if !ok {
+					// e.g. the current key was deleted from the map inside the loop
+					return errz.EvalErrorf("eval error: the container changed during iteration")
+				}
 				vm.push(iter)
 				if nameCount == 1 {
 					vm.push(obj.Key())
